@@ -23,7 +23,7 @@ CLAIMED = {
             "unreachable (induction over the token list, the delimiter stack and the expression tree through all five parser stages); a "
             "doubled space parses to the same tree up to positions or fails at the same place (lexer look-ahead lemma + position-"
             "parametricity of every parser stage, Proofs/ParseSim.v), and so does a space added next to '->' ',' '+' or just inside a "
-            "delimiter (on de-duplicated token lists, through grouping, Proofs/ParseSpace.v); the re-print clause is refuted by a witness (known finding F5); "
+            "delimiter (on de-duplicated token lists, through grouping, Proofs/ParseSpace.v); the re-print clause is refuted in general by a witness (known finding F5) and proved for every token sequence of at most 5 (thorough: 6) tokens by evaluating the model on the whole finite domain inside Coq; "
             "tied to /repo by regenerated tables and an exhaustive + random differential correspondence against parse_op (class, site, "
             "positions, tree); re-printing of the trees that do print is decided by a direct oracle on the implementation (search step)",
             "Coq proof over a hand-written executable model + generated-table lemmas + differential correspondence", "DESIGN.md 3/C12"),
@@ -35,7 +35,7 @@ CLAIMED = {
 }
 CLAIMED.update({
     "C14": ("Theorems in Props/C14.v over Spec/UpdateSem.v: every contribution applied exactly once (accumulating duplicates), untouched "
-            "elsewhere, set_at leaves a competing value, and the source's multiplier loop (regenerated into Gen/GenRavel.v) yields the "
+            "elsewhere, set_at leaves a competing value, get_at reads back what a collision-free set_at wrote, and the source's multiplier loop (regenerated into Gen/GenRavel.v) yields the "
             "row-major index; einx results on generated *_at/get_at calls with colliding coordinates are compared with the extracted spec",
             "Coq proof on the update semantics + regenerated kernel lemma + value correspondence", "DESIGN.md 3/C14"),
     "C09": ("Finite-table theorems (Props/C09.v, vm_compute over tables regenerated from the source): mutating numpy primitives are wrapped "
@@ -56,12 +56,12 @@ CLAIMED.update({
             "node-by-node evaluation of the real graph, with einx's own result, and with the cached callable's code object",
             "translation validation with a Coq-verified validator + differential execution", "DESIGN.md 3/C04"),
     "C05": ("Term model of the optimiser with numpy's row-major meaning of reshape/transpose; theorems norm_sound / equiv_sound / "
-            "merge_transpose / merge_reshape / every-change-shrinks (Props/C05.v), rules instantiated from the regenerated Gen/GenOpt.v; "
-            "every captured and synthetic (before, after) pair is checked by the extracted equivalence checker, evaluated node by node on "
+            "merge_transpose / merge_reshape / every-change-shrinks / no rewrite removes, duplicates or reorders a function application (Props/C05.v), rules instantiated from the regenerated Gen/GenOpt.v; "
+            "every captured and synthetic (before, after) pair - including adapter graphs with run-time checks and wrapper graphs - is checked by the extracted equivalence checker, evaluated node by node on "
             "data, and compared on its in-place effect events; all permutation pairs up to rank 4/5",
             "Coq proof of the rewrite system + verified equivalence checker on captured pairs + differential evaluation", "DESIGN.md 3/C05"),
-    "C17": ("Theorem (Props/C17.v): in the straight-line language every execution performs at most as many calls as there are call sites "
-            "in the text; the text returned by graph=True must decode into that language (fail closed) and keep its skeleton under "
+    "C17": ("Theorems (Props/C17.v): in the straight-line language every execution performs at most as many calls as there are call sites "
+            "in the text; the operation skeletons of the modelled lowerings (rearrangement, element-wise, reduction, dot) depend on axis names only; the n-ary unfolding kernel (regenerated) is polymorphic in its operands; the text returned by graph=True must decode into that language (fail closed) and keep its skeleton under "
             "scaling of all non-unit axis lengths",
             "Coq theorem on the code language + ast/skeleton correspondence under size scaling", "DESIGN.md 3/C17"),
 })
@@ -76,7 +76,7 @@ CLAIMED.update({
             "Coq-verified reference solver + envelope correspondence on solve_shapes / solve_axes / matches", "DESIGN.md 3/C02"),
     "C10": ("Theorem (Props/C10.v, any number of threads / programs / schedules): if every state-replacing registry method holds the lock "
             "then the completion order is a serial execution with the same results and final state; the lock table is regenerated from "
-            "frontend/backend.py; the unlocked pinned behaviour is refuted by a concrete schedule. A deterministic scheduler (sys.settrace, "
+            "frontend/backend.py; the unlocked pinned behaviour is refuted by a concrete schedule; a memo that publishes key and result together is transparent under every interleaving (the source's memo is functools' only: regenerated), a two-step memo is refuted. A deterministic scheduler (sys.settrace, "
             "pre-emption before every source line of backend.py, lock-aware) replays random schedules of 2-3 real threads and compares "
             "with all serial interleavings evaluated by the extracted registry model; part B runs whole einx calls (first-time tracing, "
             "compilation, cache fill) in 2-3 threads under controlled hand-over points and compares every result with the call executed alone; "
@@ -111,7 +111,7 @@ CLAIMED.update({
             "resolved shape as tuple of ints, equality with passing the produced tensor, never for graph=True or rejected calls, wrong "
             "type/shape fails; the traced program is evaluated node by node by the extracted model: exactly one call of every factory input",
             "Coq theorems over a regenerated kernel + recording-factory histories + extracted node-by-node evaluation of the traced program", "DESIGN.md 3/C13"),
-    "C15": ("Theorems (Props/C15.v) over the kernel regenerated from _expr_to_axis: axis= is exactly the ascending list of bracket positions; "
+    "C15": ("Theorems (Props/C15.v) over kernels regenerated from _expr_to_axis and _make_iskwarg: axis= is exactly the ascending list of bracket positions; every keyword-only parameter (with or without default) is the function's and nothing else is; "
             "recording user functions under adapt_numpylike_reduce / adapt_numpylike_elementwise: value vs the extracted reference plan with "
             "the user function as elementary operation, received arguments vs the documentation, keyword-only forwarding (also on cache "
             "hits), axis/keyword clash, wrong type/shape/arity returns",
